@@ -136,3 +136,250 @@ theorem alHas_alDel_ne {β} (k k' : Nat) (l : List (Nat × β)) (h : k' ≠ k) :
   simp [alHas, alGet_alDel_ne _ _ _ h]
 
 end Djc.Proofs.Render
+
+namespace Djc.Proofs.Render
+open Djc.Tpl Djc.Render
+
+/-! ### flatten / lookups (layers are dicts: keys unique) -/
+
+def UniqueKeys (l : Layer) : Prop := (l.map (·.1)).Nodup
+
+theorem lookupL_setL_same (k : Str) (v : Val) (l : Layer) : lookupL k (setL k v l) = some v := by
+  induction l with
+  | nil => simp [setL, lookupL]
+  | cons a rest ih =>
+    obtain ⟨ak, av⟩ := a
+    by_cases h : ak = k
+    · subst h; simp [setL, lookupL]
+    · simp [setL, lookupL, h, ih]
+
+theorem lookupL_mem_keys (k : Str) (l : Layer) (h : (lookupL k l).isSome = true) : k ∈ l.map (·.1) := by
+  induction l with
+  | nil => simp [lookupL] at h
+  | cons a rest ih =>
+    obtain ⟨ak, av⟩ := a
+    by_cases hk : ak = k
+    · simp [hk]
+    · simp only [lookupL, hk, if_false] at h
+      simp [ih h]
+
+theorem keys_setL (k : Str) (v : Val) (l : Layer) :
+    (setL k v l).map (·.1) = if k ∈ l.map (·.1) then l.map (·.1) else l.map (·.1) ++ [k] := by
+  induction l with
+  | nil => simp [setL]
+  | cons a rest ih =>
+    obtain ⟨ak, av⟩ := a
+    by_cases h : ak = k
+    · subst h; simp [setL]
+    · have hne : ¬ k = ak := fun e => h e.symm
+      simp only [setL, h, if_false, List.map_cons, List.mem_cons, hne, false_or, ih]
+      split <;> simp
+
+theorem unique_setL (k : Str) (v : Val) (l : Layer) (h : UniqueKeys l) : UniqueKeys (setL k v l) := by
+  unfold UniqueKeys at *
+  rw [keys_setL]
+  split
+  · exact h
+  · rename_i hk
+    exact List.nodup_append.mpr ⟨h, by simp, by
+      intro a ha b hb
+      simp at hb
+      subst hb
+      exact fun e => hk (e ▸ ha)⟩
+
+/-- `d.update(o)` read back: the value from `o` if it has the key, else the one from `d` -/
+theorem lookupL_updateL (k : Str) (d o : Layer) (ho : UniqueKeys o) :
+    lookupL k (updateL d o) = (match lookupL k o with | some v => some v | Option.none => lookupL k d) := by
+  unfold updateL
+  induction o generalizing d with
+  | nil => simp [lookupL]
+  | cons a rest ih =>
+    obtain ⟨ak, av⟩ := a
+    have hrest : UniqueKeys rest := by
+      unfold UniqueKeys at *
+      simp only [List.map_cons, List.nodup_cons] at ho
+      exact ho.2
+    simp only [List.foldl_cons]
+    rw [ih _ hrest]
+    by_cases hk : ak = k
+    · subst hk
+      have hnot : lookupL ak rest = Option.none := by
+        cases hl : lookupL ak rest with
+        | none => rfl
+        | some v =>
+          have := lookupL_mem_keys ak rest (by simp [hl])
+          unfold UniqueKeys at ho
+          simp only [List.map_cons, List.nodup_cons] at ho
+          exact absurd this ho.1
+      simp [hnot, lookupL, lookupL_setL_same]
+    · simp only [lookupL, hk, if_false]
+      rw [lookupL_setL_ne _ _ _ _ hk]
+
+theorem unique_updateL (d o : Layer) (hd : UniqueKeys d) : UniqueKeys (updateL d o) := by
+  unfold updateL
+  induction o generalizing d with
+  | nil => simpa using hd
+  | cons a rest ih => exact ih _ (unique_setL _ _ _ hd)
+
+/-- `context.flatten()[k]` is `context[k]` -/
+theorem lookupL_flatten (ctx : Ctx) (k : Str) (h : ∀ l ∈ ctx, UniqueKeys l) :
+    lookupL k (flatten ctx) = ctxGet ctx k := by
+  unfold flatten ctxGet
+  have gen : ∀ (acc : Layer), UniqueKeys acc →
+      lookupL k (ctx.foldl updateL acc) =
+        ctx.foldl (fun a l => match lookupL k l with | some v => some v | Option.none => a) (lookupL k acc) := by
+    induction ctx with
+    | nil => intro acc _; rfl
+    | cons l rest ih =>
+      intro acc hacc
+      simp only [List.foldl_cons]
+      rw [ih (fun x hx => h x (List.mem_cons_of_mem _ hx)) _ (unique_updateL _ _ hacc),
+        lookupL_updateL _ _ _ (h l (List.mem_cons_self ..))]
+  have h' := gen [] (by simp [UniqueKeys])
+  exact h'
+
+theorem unique_flatten (ctx : Ctx) : UniqueKeys (flatten ctx) := by
+  unfold flatten
+  have gen : ∀ acc, UniqueKeys acc → UniqueKeys (ctx.foldl updateL acc) := by
+    induction ctx with
+    | nil => intro acc h; exact h
+    | cons l rest ih => intro acc h; exact ih _ (unique_updateL _ _ h)
+  exact gen [] (by simp [UniqueKeys])
+
+/-- setting every pair of a dict on the newest layer: a key of the dict reads back its value -/
+theorem ctxGet_fold_setTop_mem (kvs : Layer) (c : Ctx) (k : Str) (v : Val) (hu : UniqueKeys kvs)
+    (hm : lookupL k kvs = some v) (hc : c ≠ []) :
+    ctxGet (kvs.foldl (fun b kv => ctxSetTop b kv.1 kv.2) c) k = some v := by
+  induction kvs generalizing c with
+  | nil => simp [lookupL] at hm
+  | cons a rest ih =>
+    obtain ⟨ak, av⟩ := a
+    have hrest : UniqueKeys rest := by
+      unfold UniqueKeys at *
+      simp only [List.map_cons, List.nodup_cons] at hu
+      exact hu.2
+    have hne : ctxSetTop c ak av ≠ [] := by
+      rcases List.eq_nil_or_concat c with h | ⟨c', l, h⟩
+      · exact absurd h hc
+      · subst h; rw [List.concat_eq_append, ctxSetTop_append_one]; simp
+    simp only [List.foldl_cons]
+    by_cases hk : ak = k
+    · subst hk
+      simp only [lookupL, if_true] at hm
+      cases hm
+      have hnot : ∀ kv ∈ rest, kv.1 ≠ ak := by
+        intro kv hkv e
+        unfold UniqueKeys at hu
+        simp only [List.map_cons, List.nodup_cons] at hu
+        exact hu.1 (e ▸ List.mem_map_of_mem (f := fun x : Str × Val => x.1) hkv)
+      rw [ctxGet_fold_setTop _ _ _ hnot]
+      rcases List.eq_nil_or_concat c with h | ⟨c', l, h⟩
+      · exact absurd h hc
+      · subst h
+        rw [List.concat_eq_append, ctxSetTop_append_one, ctxGet_append_one, lookupL_setL_same]
+    · simp only [lookupL, hk, if_false] at hm
+      exact ih _ hrest hm hne
+
+end Djc.Proofs.Render
+
+namespace Djc.Proofs.Render
+open Djc.Tpl Djc.Render
+
+theorem forLayerToCopy_mem' (ctx : Ctx) (l : Layer) (h : forLayerToCopy ctx = some l) : l ∈ ctx := by
+  unfold forLayerToCopy at h
+  split at h
+  · rename_i l' hf
+    cases h
+    exact List.mem_of_mem_drop (List.mem_reverse.mp (List.mem_of_find?_eq_some hf))
+  · split at h
+    · exact List.mem_of_getLast? h
+    · cases h
+
+theorem ctxGet_none_all (ctx : Ctx) (k : Str) (h : ctxGet ctx k = Option.none) : ∀ l ∈ ctx, lookupL k l = Option.none := by
+  induction hn : ctx.length generalizing ctx with
+  | zero =>
+    have : ctx = [] := List.length_eq_zero_iff.mp hn
+    subst this
+    intro l hl; cases hl
+  | succ n ih =>
+    rcases List.eq_nil_or_concat ctx with hc | ⟨c', l, hc⟩
+    · subst hc; intro l hl; cases hl
+    · subst hc
+      rw [List.concat_eq_append] at h hn ⊢
+      rw [ctxGet_append_one] at h
+      cases hl : lookupL k l with
+      | some v => simp [hl] at h
+      | none =>
+        simp only [hl] at h
+        intro x hx
+        rcases List.mem_append.mp hx with hx | hx
+        · exact ih c' h (by simpa using hn) x hx
+        · simp at hx; subst hx; exact hl
+
+theorem lookupL_filter_key (k : Str) (p : Str → Bool) (l : Layer) (hp : p k = true) :
+    lookupL k (l.filter (fun kv => p kv.1)) = lookupL k l := by
+  induction l with
+  | nil => rfl
+  | cons a rest ih =>
+    obtain ⟨ak, av⟩ := a
+    by_cases hk : ak = k
+    · subst hk; simp [List.filter_cons, hp, lookupL]
+    · by_cases hq : p ak = true
+      · simp [List.filter_cons, hq, lookupL, hk, ih]
+      · simp [List.filter_cons, hq, lookupL, hk, ih]
+
+theorem unique_filter (p : Str × Val → Bool) (l : Layer) (h : UniqueKeys l) : UniqueKeys (l.filter p) := by
+  unfold UniqueKeys at *
+  exact (List.Sublist.map _ List.filter_sublist).nodup h
+
+end Djc.Proofs.Render
+
+namespace Djc.Proofs.Render
+open Djc.Tpl Djc.Render
+
+theorem sGet_sSet_same (k : Str) (v : FillFn) (l : List (Str × FillFn)) : sGet k (sSet k v l) = some v := by
+  induction l with
+  | nil => simp [sSet, sGet]
+  | cons a rest ih =>
+    obtain ⟨ak, av⟩ := a
+    by_cases h : ak = k
+    · subst h; simp [sSet, sGet]
+    · simp [sSet, sGet, h, ih]
+
+theorem sGet_sSet_ne (k k' : Str) (v : FillFn) (l : List (Str × FillFn)) (h : k' ≠ k) :
+    sGet k (sSet k' v l) = sGet k l := by
+  induction l with
+  | nil => simp [sSet, sGet, h]
+  | cons a rest ih =>
+    obtain ⟨ak, av⟩ := a
+    by_cases h1 : ak = k'
+    · subst h1; simp [sSet, sGet, h]
+    · by_cases h2 : ak = k
+      · subst h2; simp [sSet, sGet, h1]
+      · simp [sSet, sGet, h1, h2, ih]
+
+theorem sGet_fold (cs : List Captured) (acc : List (Str × FillFn)) (c : Captured) (hc : c ∈ cs)
+    (hn : (cs.map (·.name)).Nodup) :
+    sGet c.name (cs.foldl (fun acc c => sSet c.name (fillOfCaptured c) acc) acc) = some (fillOfCaptured c) := by
+  induction cs generalizing acc with
+  | nil => cases hc
+  | cons d rest ih =>
+    simp only [List.map_cons, List.nodup_cons] at hn
+    simp only [List.foldl_cons]
+    rcases List.mem_cons.mp hc with e | hm
+    · subst e
+      -- the later fills have other names, so they leave this one alone
+      have : ∀ (l : List Captured) (acc : List (Str × FillFn)), (∀ x ∈ l, x.name ≠ c.name) →
+          sGet c.name (l.foldl (fun acc c => sSet c.name (fillOfCaptured c) acc) acc) = sGet c.name acc := by
+        intro l
+        induction l with
+        | nil => intro acc _; rfl
+        | cons x xs ihx =>
+          intro acc hx
+          simp only [List.foldl_cons]
+          rw [ihx _ (fun y hy => hx y (List.mem_cons_of_mem _ hy)), sGet_sSet_ne _ _ _ _ (hx x (List.mem_cons_self ..))]
+      rw [this rest _ (fun x hx e => hn.1 (e ▸ List.mem_map_of_mem (f := fun x : Captured => x.name) hx)), sGet_sSet_same]
+    · exact ih _ hm hn.2
+
+
+end Djc.Proofs.Render
